@@ -1,7 +1,7 @@
 (* Extract/DrvC16.v — driver for C16: runs the very definitions the theorems of
    Props/C16.v are about.  Request: (op args...).  Extracted with ExtrOcamlBasic only. *)
 From PV Require Import Gen.PyFuns.
-From PV Require Import Base.Outcome Base.Prim Spec.PrimSpec.
+From PV Require Import Base.Outcome Base.Prim Spec.PrimSpec Model.C16Run.
 Open Scope string_scope.
 
 Definition sx_dec {A} (f : A -> sx) (r : option (A * list Z)) : sx :=
@@ -41,7 +41,7 @@ Definition dispatch (req : sx) : sx :=
   else if op =? "u24" then sx_dec SI (u24_decode (gbool a1) (gB a2))
   else if op =? "cstring" then sx_dec SB (cstring_decode (gB a1))
   else if op =? "cstr_at" then sx_opt SB (parse_cstring_at (gB a1) (gnat a2))
-  else if op =? "block" then sx_dec SB (block_decode (len_dec (gI a1) (gbool a2)) (gB a3))
+  else if op =? "block" then sx_dec SB (block_decode_run (len_dec (gI a1) (gbool a2)) (gB a3))
   else if op =? "initlen" then
     sx_dec (fun '(v, is64) => SL [SI v; sx_bool is64]) (initial_length_decode (gbool a1) (gB a2))
   else if op =? "repeat" then
